@@ -386,4 +386,6 @@ def cases(tier):
         out.append(Case('formfactor[%s|vector2]' % kind, _ff_case(kind, True), max_paths=16, timeout_ms=30000))
     out.append(Case('cromer_mann_formula', _cromermann_case, max_paths=32, timeout_ms=30000))
     out.append(Case('shipped_tables_ground', None, custom=_ground_case))
+    from .c05 import _first_touch_case
+    out.append(Case('first_lookup_ground', None, custom=_first_touch_case))
     return out
